@@ -23,12 +23,14 @@ Start(c) == [Pre(c) EXCEPT !.r0 = c.in.R]      \* a convergence run starts with 
 
 \* a panic leaves no post-state; a sync that returned an error still has one and is judged on it.
 \* Ante = the clause speaks about this step (counted in TRACE-DONE), Holds = what it demands.
+SyncActs == {"Sync", "Sync2", "Sync3"}     \* Sync2 / Sync3: 2 / 3 back-to-back syncs on stale ReplicaSet statuses
+KOf(c) == IF c.in.act = "Sync2" THEN 2 ELSE 3
 Ante(n, c) ==
   /\ c.panic = ""
-  /\ CASE n = "D1" -> c.in.act = "Sync" /\ A1(Pre(c), Post(c))
-       [] n = "D2" -> c.in.act = "Sync" /\ A2(Pre(c), Post(c))
-       [] n = "D3" -> c.in.act = "Sync" /\ A3(Pre(c), Post(c))
-       [] n = "D4" -> c.in.act = "Sync" /\ A4(Pre(c), Post(c))
+  /\ CASE n = "D1" -> c.in.act \in SyncActs /\ A1(Pre(c), Post(c))
+       [] n = "D2" -> c.in.act \in SyncActs /\ A2(Pre(c), Post(c))
+       [] n = "D3" -> c.in.act \in SyncActs /\ A3(Pre(c), Post(c))
+       [] n = "D4" -> c.in.act \in SyncActs /\ A4(Pre(c), Post(c))
        [] n = "D5" -> c.in.act = "Converge" /\ Covers(Pre(c))
 
 Holds(n, c) ==
@@ -43,6 +45,7 @@ Holds(n, c) ==
 DriftBase(c) ==
   IF c.panic # "" THEN "fn"
   ELSE IF c.in.act = "Sync" THEN (IF Post(c) = CodeSync(Pre(c)) THEN "code" ELSE "fn")
+  ELSE IF c.in.act \in {"Sync2", "Sync3"} THEN (IF Post(c) = SyncStaleWith(Pre(c), KOf(c), TRUE) THEN "code" ELSE "fn")
   ELSE LET r == FairRun(Start(c), FairBudget(Pre(c)), TRUE)
        IN  IF r.fix = c.out.fix /\ r.x = Post(c) THEN "code" ELSE "fn"
 
@@ -50,10 +53,13 @@ DriftFields(c) ==
   IF c.panic # "" THEN {"panic"}
   ELSE
     LET x   == Pre(c)
-        ref == IF c.in.act = "Sync" THEN [fix |-> FALSE, x |-> RefSync(x)] ELSE FairRun(Start(c), FairBudget(x), FALSE)
+        ref == IF c.in.act = "Sync" THEN [fix |-> FALSE, x |-> RefSync(x)]
+               ELSE IF c.in.act \in {"Sync2", "Sync3"} THEN [fix |-> FALSE, x |-> SyncStaleWith(x, KOf(c), FALSE)]
+               ELSE FairRun(Start(c), FairBudget(x), FALSE)
     IN  {f \in {"nx", "n", "olds"} : ref.x[f] # c.out[f]}
           \cup (IF ref.fix # c.out.fix THEN {"fix"} ELSE {})
-          \cup (IF c.err # "" THEN {"err"} ELSE {})
+          \cup (IF c.err # "" /\ c.in.act \notin {"Sync2", "Sync3"} THEN {"err"} ELSE {})
+          \cup (IF c.in.act \in {"Sync2", "Sync3"} /\ ~StaleOk(x, KOf(c), FALSE) /\ ~StaleOk(x, KOf(c), TRUE) THEN {"staleok"} ELSE {})
           \cup (IF c.in.L # Limit(x) THEN {"L"} ELSE {})
           \cup (IF c.in.surge # Surge(x) THEN {"surge"} ELSE {})
           \cup (IF c.in.unav # MaxUnav(x) THEN {"unav"} ELSE {})
